@@ -12,8 +12,10 @@ object satisfying the selector exactly once, parents before children (or
 after), pruned below `not should_follow`, references adding no children.
 Models: solver-enumerated witnesses (one per accepted character-class string)
 of the recursive / abstract-containment / back-reference grammars of the
-corpus, plus a user-class scenario in which the same user classes serve two
-metamodels whose grammars differ.  parent / get_model / nearest-ancestor facts
+corpus, plus user-class scenarios: the same (falsy) user classes serving two
+metamodels whose grammars differ, and user classes on which some collected
+attributes cannot be set directly (read-only property, restrictive __slots__)
+and whose __init__ does not store `parent`.  parent / get_model / nearest-ancestor facts
 are checked on the same models.
 """
 import z3
@@ -38,6 +40,7 @@ V2 = [Rule('M', Asg('es', '+=', Ref('E'))), Rule('E', A(Ref('C'), Ref('P'))),
       Rule('Q', S(Str('q'), Asg('v', '=', Ref('INT'))))]
 SCENARIOS = [
     corpus.G('shared-user-classes', V2, tags=['user']),
+    corpus.G('restricted-user-classes', V2, tags=['user']),
 ]
 
 
@@ -48,6 +51,28 @@ def grammars():
 
 
 def build(g):
+    if g['name'] == 'restricted-user-classes':
+        from textx import metamodel_from_str
+
+        # user classes on which some of the collected attributes cannot be set directly (a read-only
+        # property, __slots__ without the position attributes) and whose __init__ does not store
+        # `parent` itself: textX applies every attribute it can, `parent` included (docs: metamodel.md)
+        class C:
+            def __init__(self, parent=None, name=None, ps=None, nested=None):
+                self._name = name
+                self.ps = ps
+                self.nested = nested
+
+            @property
+            def name(self):
+                return self._name
+
+        class Q:
+            __slots__ = ('v', 'parent')
+
+            def __init__(self, parent=None, v=None):
+                self.v = v
+        return metamodel_from_str(gram.render_grammar(V2), classes=[C, Q])
     if 'user' in g['tags']:
         from textx import metamodel_from_str
 
